@@ -2,6 +2,7 @@ import Proofs.C07Writer
 import Proofs.C07Machine
 import Proofs.C07Quit
 import Proofs.C07Sem
+import Proofs.C07Refine
 /-!
 # C07 — frames are written whole (property theorems)
 
@@ -498,6 +499,59 @@ example : ∃ s, run { lens := fun _ => 10, coalesce := false } init
     [.submit 1, .enter 1, .submit 2, .piece 1 10, .endWrite 1 true, .ret 1, .enter 2] = some s ∧
     s.pc 1 = .done 10 true ∧ s.owner = some 2 := by
   refine ⟨_, rfl, ?_, ?_⟩ <;> decide
+
+/-! ### refinement between the coalescing writer machine and the plain (semaphore) writer machine, for the byte stream -/
+
+/-- **the coalescing writer adds no byte stream**: every schedule of the machine (in particular of the coalescing writer:
+    enqueue, flush timer, batches of any size, result fan-out, the flusher's quit branch, in any interleaving) is matched
+    by a schedule of the DIRECT writer with the same frame lengths - the projection of the schedule itself on
+    `submit / enter / piece / endWrite` - that reaches the same wire, piece by piece, with the same semaphore holder and,
+    for every writer that has not yet left, the same position (not arrived / Write not begun / `off` bytes out). -/
+theorem C07_coalescer_refines_direct (cfg : Cfg) (as : List Act) (s : St) (h : run cfg init as = some s) :
+    ∃ s', run cfg.direct init (wireActs as) = some s' ∧ s'.wire = s.wire ∧ s'.owner = s.owner ∧
+      (s.closed = false → s'.closed = false) ∧ ∀ w off, s.pc w = .inWrite off → s'.pc w = .inWrite off := by
+  obtain ⟨s', hr, hsim⟩ := sim_run cfg as init s init sim_init h
+  refine ⟨s', hr, hsim.wire, hsim.owner, hsim.open_, fun w off hw => ?_⟩
+  have := hsim.pcs w
+  rw [hw] at this
+  exact this
+
+/-- **and it loses none**: every schedule of the direct writer is matched by a schedule of the coalescing writer (each
+    acquisition of the semaphore becomes `enqueue ; tick ; enter`: a batch of one) with the same wire -/
+theorem C07_direct_refines_coalescer (cfg : Cfg) (hser : cfg.serialised = true) (hc : cfg.coalesce = false)
+    (as : List Act) (s : St) (h : run cfg init as = some s) :
+    ∃ s', run cfg.coalescing init (as.flatMap coActs) = some s' ∧ s'.wire = s.wire ∧ s'.owner = s.owner ∧
+      (s.closed = false → s'.closed = false) := by
+  obtain ⟨s', hr, hsim⟩ := sim'_run cfg hser hc as init s init sim'_init h
+  exact ⟨s', hr, hsim.wire, hsim.owner, hsim.open_⟩
+
+/-- so the two writers have EXACTLY the same reachable byte streams, for every assignment of frame lengths: whatever is
+    proved about the wire of one machine (framing, non-interleaving, what the monitor accepts) holds for the other -/
+theorem C07_same_byte_streams (lens : Nat → Nat) (wire : List Piece) :
+    (∃ as s, run { lens := lens, coalesce := true } init as = some s ∧ s.wire = wire) ↔
+    (∃ as s, run { lens := lens, coalesce := false } init as = some s ∧ s.wire = wire) := by
+  constructor
+  · rintro ⟨as, s, h, hw⟩
+    obtain ⟨s', hr, hw', _⟩ := C07_coalescer_refines_direct _ as s h
+    exact ⟨wireActs as, s', hr, hw'.trans hw⟩
+  · rintro ⟨as, s, h, hw⟩
+    obtain ⟨s', hr, hw', _⟩ := C07_direct_refines_coalescer _ rfl rfl as s h
+    exact ⟨as.flatMap coActs, s', hr, hw'.trans hw⟩
+
+/-- non-vacuity: a coalesced flush of three frames with the second one cut, and its projection on the direct writer -/
+example : ∃ s s', run { lens := fun w => 10 * w, coalesce := true } init
+    [.submit 1, .submit 2, .submit 3, .enqueue 1, .enqueue 2, .enqueue 3, .tick, .enter 1, .piece 1 3, .piece 1 7,
+     .endWrite 1 true, .enter 2, .piece 2 5, .endWrite 2 false, .ret 1, .ret 2, .ret 3, .close 3] = some s ∧
+    run { lens := fun w => 10 * w, coalesce := false } init
+    [.submit 1, .submit 2, .submit 3, .enter 1, .piece 1 3, .piece 1 7, .endWrite 1 true, .enter 2, .piece 2 5,
+     .endWrite 2 false] = some s' ∧ s'.wire = s.wire ∧ s.wire = [⟨1, 0, 3⟩, ⟨1, 3, 7⟩, ⟨2, 0, 5⟩] := by
+  refine ⟨_, _, rfl, rfl, ?_, ?_⟩ <;> decide
+
+example : wireActs [.submit 1, .enqueue 1, .tick, .enter 1, .piece 1 3, .cancel 2, .endWrite 1 true, .ret 1, .shutdown] =
+    [.submit 1, .enter 1, .piece 1 3, .endWrite 1 true] := rfl
+
+example : [Act.submit 1, .enter 1, .piece 1 3, .endWrite 1 false, .ret 1, .close 1].flatMap coActs =
+    [.submit 1, .enqueue 1, .tick, .enter 1, .piece 1 3, .endWrite 1 false] := rfl
 
 /-! ### frame size is a parameter: nothing above depends on it; the two writers differ in ONE size-independent detail -/
 
